@@ -732,6 +732,7 @@ def pystr(x):
     x = unguard(x)
     if isinstance(x, StrBuf): x = x.s
     if isinstance(x, int): return chr(x)
+    if hasattr(x, 'bytes') and hasattr(x, 'start') and not any(is_sym(b) for b in x.bytes()): return bytes(x.bytes()).decode()      # a slice of a concrete text
     if not isinstance(x, str): raise Unsupported('string operation on non-concrete string %r' % (x,))
     return x
 @model('str::replace', 'String::replace')
@@ -762,7 +763,18 @@ def _s_split_ws(e, c, a): return it_list(pystr(a[0]).split())
 @model('str::lines')
 def _s_lines(e, c, a): return it_list(pystr(a[0]).splitlines())
 @model('str::chars')
-def _s_chars(e, c, a): return it_list([ord(ch) for ch in pystr(a[0])])
+def _s_chars(e, c, a):
+    x = unguard(a[0])
+    if isinstance(x, StrBuf): x = x.s
+    if hasattr(x, 'bytes') and hasattr(x, 'start') and any(is_sym(b) for b in x.bytes()):
+        # a text with symbolic bytes (ASCII only: one byte per char); a char is a 32-bit value
+        out = []
+        for b in x.bytes():
+            if is_sym(b): e.assume(z3.ULT(b, 0x80)); out.append(z3.ZeroExt(24, b))
+            elif b >= 0x80: raise Unsupported('chars() of a symbolic text with non-ASCII bytes')
+            else: out.append(b)
+        return it_list(out)
+    return it_list([ord(ch) for ch in pystr(a[0])])
 @model('str::bytes')
 def _s_bytes(e, c, a): return it_list(list(pystr(a[0]).encode()))
 @model('str::char_indices')
@@ -785,11 +797,11 @@ def _string_clear(e, c, a): unguard(a[0]).s = ''; return UNIT
 def _string_cap(e, c, a): return StrBuf('')
 @model('String::into_bytes')
 def _into_bytes(e, c, a): return VecObj(list(pystr(a[0]).encode()))
-@model('char::is_alphanumeric', 'char::is_ascii_alphanumeric')
+@model('char::is_alphanumeric', 'char::is_ascii_alphanumeric', 'impl char::is_alphanumeric', 'impl char::is_ascii_alphanumeric')
 def _c_alnum(e, c, a): return chr(e.concretize(a[0] if not isinstance(a[0], Ref) else a[0].get())).isalnum()
-@model('char::is_ascii_digit', 'char::is_numeric')
+@model('char::is_ascii_digit', 'char::is_numeric', 'impl char::is_ascii_digit', 'impl char::is_numeric')
 def _c_digit(e, c, a): return chr(e.concretize(a[0] if not isinstance(a[0], Ref) else a[0].get())).isdigit()
-@model('char::is_whitespace', 'char::is_ascii_whitespace')
+@model('char::is_whitespace', 'char::is_ascii_whitespace', 'impl char::is_whitespace', 'impl char::is_ascii_whitespace')
 def _c_space(e, c, a): return chr(e.concretize(a[0] if not isinstance(a[0], Ref) else a[0].get())).isspace()
 @model('slice::chunk_by')
 def _chunk_by(e, c, a):
